@@ -1915,7 +1915,9 @@ class MatlabWrapper(CheckMixin, FormatMixin):
         modules = {}
         for file in files:
             with open(file, 'r') as f:
-                content += f.read()
+                # Keep files apart: one that ends in a `//` comment without a
+                # newline must not swallow the first line of the next.
+                content += f.read() + "\n"
 
         # Parse the contents of the interface file
         parsed_result = parser.Module.parseString(content)
